@@ -316,6 +316,28 @@ def check_invariants(res, rs, rxn_dicts, names, comp, case, with_ode=True):
                 e = sympy.expand(sum(c * ex for c, ex in zip(row, odesys.exprs)))
                 if e != 0:
                     bad.append(("B.f(c) != 0", row, str(e)))
+            # the same right-hand side evaluated numerically through ReactionSystem.rates, with float and with array-valued
+            # concentrations (three states at once): every invariant row annihilates it, and arrays agree with floats state by state
+            import numpy as np
+
+            pts = [[1.5 + 0.25 * i + 0.5 * j for i in range(len(names))] for j in range(3)]
+            arrs = {n: np.array([pts[j][i] for j in range(3)]) for i, n in enumerate(names)}
+            keep = {n: a.copy() for n, a in arrs.items()}
+            res.evaluations += 1
+            ra = rs.rates(dict(arrs))
+            if any(not np.array_equal(arrs[n], keep[n]) for n in names):
+                bad.append(("rates(array-valued concentrations) changed the caller's arrays", {n: arrs[n].tolist() for n in names}, {n: keep[n].tolist() for n in names}))
+            for j in range(3):
+                rf = rs.rates({n: pts[j][i] for i, n in enumerate(names)})
+                scale = max([1.0] + [abs(float(v)) for v in rf.values()])
+                for n in names:
+                    a = np.broadcast_to(np.asarray(ra.get(n, 0.0), dtype=float), (3,))[j]
+                    if abs(float(a) - float(rf.get(n, 0.0))) > 1e-12 * scale:
+                        bad.append(("rates with arrays differ from rates with floats", (n, j, float(a)), float(rf.get(n, 0.0))))
+                for row in B_exp:
+                    tot = sum(c * float(np.broadcast_to(np.asarray(ra.get(n, 0.0), dtype=float), (3,))[j]) for c, n in zip(row, names))
+                    if abs(tot) > 1e-9 * scale * max(1.0, max(abs(c) for c in row)):
+                        bad.append(("B.rates(arrays) != 0", row, tot))
             # analytic eliminations
             ld = extra["linear_dependencies"]
             if ld is None:
